@@ -42,7 +42,7 @@ LEAVES_FULL = (
 LEAVES_REDUCED = ["a", LF, EMO, "&", "\\|", "\\.", "."]
 LEAVES_TINY = ["a", LF, "&", "\\.", "."]
 # class items; "-" is added by the generator in first/last position only
-ITEMS_FULL = ["a", "b", "1", "|", "&", "~", ".", EMO, LF, LS, "\\[", "\\n", "a-b", "1-a", "\\p{L}", "\\P{Nd}"]
+ITEMS_FULL = ["a", "b", "1", "|", "&", "~", ".", EMO, LF, LS, "\\[", "\\]", "\\n", "a-b", "1-a", "\\p{L}", "\\P{Nd}"]
 ITEMS_REDUCED = ["a", "|", "&", "a-b", "\\p{L}", "\\P{Nd}"]
 ITEMS_TINY = ["a", "&", "|", "\\P{Nd}"]
 QUANTS_FULL = ["?", "*", "+", "{2}", "{1,2}", "{2,}"]
